@@ -1,2 +1,272 @@
-(* Properties/C04.v -- placeholder while the model/correspondence is being built *)
-From Verif Require Import Css.Defaulting.
+(* Properties/C04.v -- Every property has a computed value obtained by CSS defaulting.
+   Only statements, closed by `exact`, each followed by Print Assumptions.
+
+   Vocabulary (Css/Defaulting.v): a document is a list of style nodes (elements,
+   pseudo-elements, page contexts and margin boxes: KElem; anonymous boxes: KAnon), each
+   with its cascaded declarations and the node it inherits from.  `get ar fixed t st n p`
+   is the model of ComputedStyle.Get / AnonymousStyle.Get as a state machine over the
+   per-style caches, `construct` the model of the construction of a style object;
+   `computed ar fixed t n p` is the cache-free reference semantics.  `fixed = true` is the
+   model of the current code, `fixed = false` of the code before the two `fix:` commits
+   04fd1df / 14f58ba.  Check/C04.v ties the float32 instance (ar = f32, fixed = true) to
+   /repo on every run; the tables are regenerated from the source on every run. *)
+From Verif Require Import Css.Defaulting Css.DefaultingSpec Css.DefaultingProofs Css.DefaultingTables
+                          Css.DefaultingEquations Css.DefaultingTotal Css.DefaultingSpecProofs.
+From Coq Require Import QArith List.
+Import ListNotations.
+Open Scope N_scope.
+
+(* ------------------------------------------------------------------ any access order *)
+
+(* For EVERY well-formed history of style constructions and Get calls (styles are used
+   after they are constructed, and constructed after the style they inherit from), starting
+   from no style at all, every Get returns the cache-free computed value whenever there is
+   one.  The invariant carried through the proof: every cached entry of every constructed
+   style, and every field captured at construction (root font size, specified
+   position/display/float), equals its cache-free value.  Any arithmetic, old and new code. *)
+Theorem C04_cache_transparent : forall (ar : arith) (fixed : bool) (t : tree) (ops : list op),
+  wf_tree t = true ->
+  hist_ok t [] ops ->
+  constructs_succeed ops (snd (run_ops ar fixed t empty_styles ops)) ->
+  Forall2 (fun o r => match o with
+                      | OGet n p => forall v, computed ar fixed t n p = Ok v -> r = Ok (Some v)
+                      | OConstruct _ => True
+                      end) ops (snd (run_ops ar fixed t empty_styles ops)).
+Proof. intros ar fixed t ops WF. exact (cache_transparent ar fixed t WF ops). Qed.
+Print Assumptions C04_cache_transparent.
+
+(* the order newStyleFor uses (all styles in tree order) followed by ANY sequence of Gets *)
+Theorem C04_any_get_order_is_a_history : forall (t : tree) (gets : list (N * N)),
+  wf_tree t = true ->
+  Forall (fun np => (N.to_nat (fst np) < List.length t)%nat) gets ->
+  hist_ok t [] (init_ops t ++ get_ops gets).
+Proof. intros t gets WF. exact (hist_ok_init t WF gets). Qed.
+Print Assumptions C04_any_get_order_is_a_history.
+
+(* ------------------------------------------------------------------ totality *)
+
+(* On a well-typed tree (declared values have the Go type their validator produces, font
+   sizes are not negative, recorded results of non-modelled computer functions have the type
+   of a computed value) every node -- root included, pseudo-elements, page contexts,
+   anonymous boxes -- has a computed value for every property: no nil dereference, no failed
+   type assertion, no infinite recursion. *)
+Theorem C04_get_total : forall (t : tree) (n p : N),
+  wt_tree t = true -> (N.to_nat n < List.length t)%nat -> valid_prop p ->
+  exists v, computed exactQ true t n p = Ok v.
+Proof. intros t n p WT Hn Hp. exact (get_total_value t WT n p Hn Hp). Qed.
+Print Assumptions C04_get_total.
+
+(* ... and in every history every construction succeeds and every Get returns it *)
+Theorem C04_every_history_returns_computed : forall (t : tree) (ops : list op),
+  wt_tree t = true ->
+  hist_ok t [] ops ->
+  (forall n p, In (OGet n p) ops -> valid_prop p) ->
+  Forall2 (fun o r => match o with
+                      | OGet n p => exists v, computed exactQ true t n p = Ok v /\ r = Ok (Some v)
+                      | OConstruct _ => r = Ok None
+                      end) ops (snd (run_ops exactQ true t empty_styles ops)).
+Proof. intros t ops WT. exact (history_total t WT ops). Qed.
+Print Assumptions C04_every_history_returns_computed.
+
+(* The faithful model of the code BEFORE the fixes violates totality on well-typed trees:
+   <html style="font-weight: bolder"> (computed_values.go fontWeight dereferenced the nil
+   parent style) and <html style="text-indent: var(--undefined)"> / "--x: inherit;
+   text-indent: var(--x)" (style.go cascadeValue read c.parentStyle.Get on the root).
+   Witnesses replayed on /repo: corpus/C04/root-font-weight-bolder.html,
+   corpus/C04/root-pending-invalid.html. *)
+Theorem C04_get_total_refuted_before_fix :
+  (wt_tree witness_bolder_root = true /\
+   computed exactQ false witness_bolder_root 0 PFontWeight = Panic 2) /\
+  (wt_tree witness_pending_root = true /\
+   computed exactQ false witness_pending_root 0 PTextIndent = Panic 2).
+Proof.
+  exact (conj (conj witness_bolder_root_wt (proj1 get_total_refuted_before_fix))
+              (conj witness_pending_root_wt (proj1 get_total_refuted_before_fix_pending))).
+Qed.
+Print Assumptions C04_get_total_refuted_before_fix.
+
+(* ------------------------------------------------------------------ CSS Cascade 4, section 7 *)
+
+(* `defaulted`: no declaration (or one invalid at computed-value time) => the parent's
+   computed value if the property is inherited, else the initial value; `inherit` /
+   `initial` force the two; an explicit value is computed; the root inherits the initial
+   values.  Every property except the two families the implementation propagates. *)
+Theorem C04_defaulting_equations : forall (ar : arith) (t : tree) (n : N) (nd : node) (p : N),
+  wf_tree t = true -> node_at t n = Some nd -> n_kind nd = KElem ->
+  is_text_decoration p = false -> p <> PPage ->
+  computed ar true t n p =
+    let initial_ := match initial p with
+                    | None => Panic 9
+                    | Some v => if initial_not_computed p then compute_value ar t n nd p v else Ok v
+                    end in
+    let inherit_ := match n_parent nd with Some j => computed ar true t j p | None => initial_ end in
+    match effective nd p with
+    | None => if inherited p then inherit_ else initial_
+    | Some CInherit => inherit_
+    | Some CInitial => initial_
+    | Some (CExplicit v) => compute_value ar t n nd p v
+    | Some (CPending _) => Panic 7
+    end.
+Proof. intros ar t n nd p WF. exact (defaulting_equations ar t WF n nd p). Qed.
+Print Assumptions C04_defaulting_equations.
+
+(* text-decoration-* and page: defaulted as above, then propagated from the parent *)
+Theorem C04_propagated_equations : forall (ar : arith) (t : tree) (n : N) (nd : node) (p : N),
+  wf_tree t = true -> node_at t n = Some nd -> n_kind nd = KElem ->
+  is_text_decoration p = true \/ p = PPage ->
+  computed ar true t n p = let* v := defaulted ar t n nd p in propagate ar t nd p v.
+Proof. intros ar t n nd p WF. exact (propagated_equations ar t WF n nd p). Qed.
+Print Assumptions C04_propagated_equations.
+
+(* anonymous boxes: inherited properties (and page) from the parent, initial values
+   otherwise, border / outline widths zero, text decorations propagated *)
+Theorem C04_anonymous_spec : forall (ar : arith) (t : tree) (n : N) (nd : node) (j p : N),
+  wf_tree t = true -> node_at t n = Some nd -> n_kind nd = KAnon -> n_parent nd = Some j ->
+  computed ar true t n p =
+    if mem_N p anon_presets then Ok (VDim "" 0 0)
+    else if inherited p || (p =? PPage) then computed ar true t j p
+    else match initial p with
+         | None => Panic 9
+         | Some iv => if is_text_decoration p
+                      then let* pv := computed ar true t j p in td_value p iv pv false
+                      else Ok iv
+         end.
+Proof. intros ar t n nd j p WF. exact (anonymous_equations ar t WF n nd j p). Qed.
+Print Assumptions C04_anonymous_spec.
+
+(* ------------------------------------------------------------------ tables (regenerated from the source) *)
+
+(* 1in = 96px = 72pt = 6pc = 2.54cm = 25.4mm = 101.6q: the translated LengthsToPixels table
+   is the CSS table for every uint8 unit, and the identities hold exactly *)
+Theorem C04_unit_table_correct :
+  (forall u, u < 256 -> Qeq_opt (assoc_N lengths_to_pixels u) (css_px_per u) = true) /\
+  px_per exactQ U_Px == 1 /\
+  px_per exactQ U_In == 96 * px_per exactQ U_Px /\
+  px_per exactQ U_In == 72 * px_per exactQ U_Pt /\
+  px_per exactQ U_In == 6 * px_per exactQ U_Pc /\
+  px_per exactQ U_In == (254 # 100) * px_per exactQ U_Cm /\
+  px_per exactQ U_In == (254 # 10) * px_per exactQ U_Mm /\
+  px_per exactQ U_In == (1016 # 10) * px_per exactQ U_Q.
+Proof. exact (conj unit_table_all unit_identities). Qed.
+Print Assumptions C04_unit_table_correct.
+
+(* which properties inherit / have a context dependent initial value: the sets of the
+   source are the sets transcribed from the CSS specifications *)
+Theorem C04_property_tables_spec : forall p, valid_prop p ->
+  inherited p = mem_S (prop_name p) css_inherited_names /\
+  initial_not_computed p = mem_S (prop_name p) css_context_dependent_initial /\
+  (exists v, initial p = Some v) /\
+  prop_id (prop_name p) = p.
+Proof.
+  intros p Hp.
+  exact (conj (inherited_table_spec p Hp) (conj (initial_not_computed_table_spec p Hp)
+        (conj (initial_defined p Hp) (proj2 (prop_names_complete p Hp))))).
+Qed.
+Print Assumptions C04_property_tables_spec.
+
+Theorem C04_font_tables_spec :
+  (forall w, In w css_weights ->
+     fw_table font_weight_bolder w = css_bolder w /\ fw_table font_weight_lighter w = css_lighter w) /\
+  map fst font_size_keywords = css_size_names /\
+  forallb (fun e => match css_font_size_ratio (fst e) with
+                    | Some r => Qeq_bool r (fst (snd e) / snd (snd e))
+                    | None => false end) font_size_keywords = true /\
+  forallb (fun e => Qeq_opt (css_border_keyword (fst e)) (Some (snd e))) border_width_keywords = true.
+Proof.
+  exact (conj font_weight_tables (conj font_size_keyword_names
+        (conj font_size_keyword_ratios (proj1 border_width_keywords_spec)))).
+Qed.
+Print Assumptions C04_font_tables_spec.
+
+(* borderWidth reads the border style as property `name - 1`: that is the matching style *)
+Theorem C04_border_style_precedes_width : forall p, valid_prop p -> computer_of p = KBorderWidth ->
+  prop_name (N.pred p) = style_name (prop_name p) /\ computer_of (N.pred p) = KNone /\ valid_prop (N.pred p).
+Proof. exact border_style_precedes_width. Qed.
+Print Assumptions C04_border_style_precedes_width.
+
+(* ------------------------------------------------------------------ relative values made absolute *)
+
+(* lengths: absolute units by the fixed ratios, em against the element's own computed font
+   size, rem against the root's (the initial value on the root) *)
+Theorem C04_length_spec : forall (t : tree) (n : N) (nd : node) (p : N) (v : value) s q u (fs rfs : Q),
+  wf_tree t = true -> node_at t n = Some nd -> n_kind nd = KElem ->
+  computer_of p = KLength -> effective nd p = Some (CExplicit v) ->
+  v = VDim s q u -> (s = "" \/ s = "auto" \/ s = "content")%string -> uses_metrics u = false -> u < 256 ->
+  (exists sf uf, computed exactQ true t n PFontSize = Ok (VDim sf fs uf)) ->
+  match n_parent nd with
+  | Some _ => exists sr ur, computed exactQ true t 0 PFontSize = Ok (VDim sr rfs ur)
+  | None => rfs = 16%Q
+  end ->
+  exists r, computed exactQ true t n p = Ok r /\ value_eq r (spec_length fs rfs U_Px v).
+Proof. intros t n nd p v s q u fs rfs WF. exact (length_computed t WF n nd p v s q u fs rfs). Qed.
+Print Assumptions C04_length_spec.
+
+(* font-size: em and percentages against the PARENT's computed font size (the initial value
+   on the root), rem against the root's, keywords by the CSS ratios of `medium` *)
+Theorem C04_font_size_relative_spec : forall (t : tree) (n : N) (nd : node) (v : value) s q u (pfs rfs : Q),
+  wf_tree t = true -> node_at t n = Some nd -> n_kind nd = KElem ->
+  effective nd PFontSize = Some (CExplicit v) ->
+  v = VDim s q u -> In s font_size_words -> uses_metrics u = false -> u < 256 ->
+  match n_parent nd with
+  | Some j => (exists sp up, computed exactQ true t j PFontSize = Ok (VDim sp pfs up)) /\
+              (exists sr ur, computed exactQ true t 0 PFontSize = Ok (VDim sr rfs ur))
+  | None => pfs = 16%Q /\ rfs = 16%Q
+  end ->
+  (0 <= pfs)%Q ->
+  exists r, computed exactQ true t n PFontSize = Ok r /\ value_eq r (spec_font_size 16 pfs rfs v).
+Proof. intros t n nd v s q u pfs rfs WF. exact (font_size_computed t WF n nd v s q u pfs rfs). Qed.
+Print Assumptions C04_font_size_relative_spec.
+
+(* font-weight: bolder / lighter against the parent's computed weight (400 on the root) *)
+Theorem C04_font_weight_relative_spec : forall (t : tree) (n : N) (nd : node) (v : value) s i (pfw : Z),
+  wf_tree t = true -> node_at t n = Some nd -> n_kind nd = KElem ->
+  effective nd PFontWeight = Some (CExplicit v) -> v = VIntStr s i ->
+  match n_parent nd with
+  | Some j => exists sp, computed exactQ true t j PFontWeight = Ok (VIntStr sp pfw)
+  | None => pfw = 400%Z
+  end ->
+  In pfw css_weights ->
+  computed exactQ true t n PFontWeight = Ok (spec_font_weight pfw v).
+Proof. intros t n nd v s i pfw WF. exact (font_weight_computed t WF n nd v s i pfw). Qed.
+Print Assumptions C04_font_weight_relative_spec.
+
+(* ------------------------------------------------------------------ the hypotheses are inhabited *)
+
+(* html { font-size: 2rem; font-weight: lighter } > body { width: 3em; font-size: 150%;
+   border-top-width: thick; border-top-style: solid } > (::before { font-weight: bolder }),
+   an anonymous box under body, and a page context inheriting from the root *)
+Definition example_tree : tree := Eval vm_compute in
+  [ mkNode None KElem [D PFontSize (CExplicit (VDim "" 2 U_Rem)); D PFontWeight (CExplicit (VIntStr "lighter" 0))] [];
+    mkNode (Some 0) KElem [D (prop_id "width") (CExplicit (VDim "" 3 U_Em)); D PFontSize (CExplicit (VDim "" 150 U_Perc));
+                           D PBorderTopWidth (CExplicit (VDim "thick" 0 0));
+                           D (prop_id "border-top-style") (CExplicit (VStr "solid"))] [];
+    mkNode (Some 1) KElem [D PFontWeight (CExplicit (VIntStr "bolder" 0))] [];
+    mkNode (Some 1) KAnon [] [];
+    mkNode (Some 0) KElem [D (prop_id "margin-top") (CExplicit (VDim "" 1 U_In))] [] ].
+
+Example example_tree_well_typed : wt_tree example_tree = true.
+Proof. vm_compute. reflexivity. Qed.
+
+Definition example_gets : list (N * N) := Eval vm_compute in
+  [(2, PFontWeight); (1, prop_id "width"); (3, PFontSize); (0, PFontSize); (1, PBorderTopWidth); (4, prop_id "margin-top")].
+
+Example example_history_ok : hist_ok example_tree [] (init_ops example_tree ++ get_ops example_gets).
+Proof. apply (hist_ok_init example_tree eq_refl). repeat constructor. Qed.
+
+(* root 2rem = 32px, body 150% = 48px, width 3em = 144px, bolder(lighter(400)=100) = 400,
+   thick with a solid style = 5px, 1in = 96px; in that access order, with the caches *)
+Definition same_result (a b : res (option value)) : bool :=
+  match a, b with
+  | Ok None, Ok None => true
+  | Ok (Some x), Ok (Some y) => value_eqb x y     (* up to == on the rationals *)
+  | _, _ => false
+  end.
+
+Example example_values :
+  forallb (fun ab => same_result (fst ab) (snd ab))
+    (combine (snd (run_ops exactQ true example_tree empty_styles (init_ops example_tree ++ get_ops example_gets)))
+             [Ok None; Ok None; Ok None; Ok None; Ok None;
+              Ok (Some (VIntStr "" 400)); Ok (Some (VDim "" 144 U_Px)); Ok (Some (VDim "" 48 U_Scalar));
+              Ok (Some (VDim "" 32 U_Scalar)); Ok (Some (VDim "" 5 U_Scalar)); Ok (Some (VDim "" 96 U_Px))]) = true
+  /\ List.length (snd (run_ops exactQ true example_tree empty_styles (init_ops example_tree ++ get_ops example_gets))) = 11%nat.
+Proof. split; vm_compute; reflexivity. Qed.
